@@ -106,3 +106,26 @@ func (s *SourceControl) VerifRunLater(f func()) error { return s.runLaterIfActiv
 
 // VerifReply sends a request closure's result to the waiting RPC caller.
 func (s *SourceControl) VerifReply(err error) { s.queuedResults <- err }
+
+// VerifLanceroMix sends one ConfigureMixFraction request to a LanceroSource with nmix mix entries whose
+// real request consumer (the goroutine of getNextBlock) is running, and reports whether it was accepted.
+func VerifLanceroMix(nmix int, idx []int, fractions []float64) bool {
+	ls := new(LanceroSource)
+	ls.nsamp = 1
+	ls.Mix = make([]*Mix, nmix)
+	for i := range ls.Mix {
+		ls.Mix[i] = &Mix{}
+	}
+	ls.mixRequests = make(chan *MixFractionObject, 10)
+	ls.currentMix = make(chan []float64, 10)
+	ls.buffersChan = make(chan BuffersChanType)
+	ls.nextBlock = make(chan *dataBlock)
+	ls.getNextBlock()
+	_, err := ls.ConfigureMixFraction(&MixFractionObject{ChannelIndices: idx, MixFractions: fractions})
+	close(ls.buffersChan) // ends the consumer goroutine
+	<-ls.nextBlock
+	return err == nil
+}
+
+// VerifChanNumbers returns the channel numbers of a prepared source.
+func (ds *AnySource) VerifChanNumbers() []int { return append([]int(nil), ds.chanNumbers...) }
